@@ -907,20 +907,21 @@ func c16Headless(in *C16Input, ms *dbg.DbgMsgStruct, txs, txs2 []*dbg.DbgMsgTx, 
 			// request (the same client, none of that name) leaves it on.
 			f = func() {
 				t0 := mach.Tick(c16ss.SelectingClient)
-				res := mach.Add1(c16ss.SelectingClient, am.Pass(&types.A{ClientId: cid}))
-				if res == am.Canceled {
+				mach.Add1(c16ss.SelectingClient, am.Pass(&types.A{ClientId: cid}))
+				// The Result says nothing about THIS request: processQueue returns
+				// the result of the first mutation it drained (one a timer goroutine
+				// of the debugger had queued comes first), or Queued when such a
+				// goroutine was driving the queue; an Eval is no barrier either (it
+				// is PREpended). Once the queue has drained the request has run: the
+				// tick of SelectingClient tells whether SelectingClientEnter let it
+				// through. A refused one (the client that is selected, no client of
+				// that name) is a no-op and nothing is waited for.
+				if !c16Settle(d) || mach.Tick(c16ss.SelectingClient) == t0 {
 					return
 				}
-				if res != am.Executed {
-					// only queued (a timer goroutine of the debugger was driving the
-					// queue; an Eval is no barrier, it is PREpended): once the queue
-					// has drained the request has run or was rejected
-					if !c16Settle(d) || mach.Tick(c16ss.SelectingClient) == t0 {
-						return
-					}
-				}
 				// SelectingClientState has run; its forked part ends with adding
-				// ClientSelected, which takes SelectingClient off again
+				// ClientSelected, which takes SelectingClient off again. A selection
+				// that never completes is given up by `do` (hangAfter).
 				for i := 0; i < 40000; i++ {
 					if mach.Tick(c16ss.SelectingClient) >= t0+2 && mach.Is1(c16ss.ClientSelected) {
 						return
@@ -1354,6 +1355,10 @@ func c16GenNav(r *Rng, live bool) *C16Nav {
 			nav.Cmds = append(nav.Cmds, C16Cmd{K: "scroll", N: r.Range(-1, 60)})
 		case x < 75:
 			nav.Cmds = append(nav.Cmds, C16Cmd{K: "scrollid", N: r.Range(-1, 60)})
+		case x < 78:
+			// a client switch that SelectingClientEnter refuses: the only client is
+			// selected already; there is no other
+			nav.Cmds = append(nav.Cmds, C16Cmd{K: "select", N: []int{0, 0, 1, 7}[r.Intn(4)]})
 		default:
 			nav.Cmds = append(nav.Cmds, C16Cmd{K: "toggle", Tool: tools[r.Intn(len(tools))]})
 		}
@@ -1436,9 +1441,9 @@ func c16GenNav2(r *Rng) *C16Nav {
 		sw()
 		move(r.Intn(3))
 		toggle(r.Range(1, 2))
-		if r.Chance(12) {
-			// rejected requests: the client that is selected, an unknown one
-			add(C16Cmd{K: "select", N: []int{sel, 7}[r.Intn(2)]})
+		if r.Chance(35) {
+			// rejected requests: the client that is selected (mostly), an unknown one
+			add(C16Cmd{K: "select", N: []int{sel, sel, 7}[r.Intn(3)]})
 		}
 		move(r.Intn(2))
 		sw()
